@@ -19,25 +19,25 @@ open CoreBGP CoreBGP.Model
 
 /-- `UpdateDecoder.Decode` never panics: for every byte string of any length and callbacks of any
 behaviour (that themselves return) -/
-theorem decodeUpdate_no_panic (cb : Callbacks) (b : Bytes) : decodeUpdate cb b ≠ .panic := by
-  sorry
+theorem decodeUpdate_no_panic (cb : Callbacks) (b : Bytes) : decodeUpdate cb b ≠ .panic :=
+  Lemmas.decodeUpdate_no_panic cb b
 
 /-- the MP_REACH_NLRI splitter never panics, for every next-hop length octet and every length -/
 theorem mpReach_no_panic (flags : UInt8) (b : Bytes) (fn : MPReachArgs → Option Err) :
-    mpReach flags b fn ≠ .panic := by
-  sorry
+    mpReach flags b fn ≠ .panic :=
+  Lemmas.mpReach_no_panic flags b fn
 
 /-- the OPEN decoder never panics -/
-theorem decodeOpen_no_panic (b : Bytes) : decodeOpen b ≠ .panic := by
-  sorry
+theorem decodeOpen_no_panic (b : Bytes) : decodeOpen b ≠ .panic :=
+  Lemmas.decodeOpen_no_panic b
 
 /-- the capability-parameter decoder cannot panic on the inputs an OPEN can hand it (at most
 255 bytes); on longer inputs the 8-bit `capLen+2` can wrap — which is why the bound matters -/
-theorem decodeCaps_no_panic (b : Bytes) (h : b.length ≤ 255) : decodeCaps b ≠ .panic := by
-  sorry
+theorem decodeCaps_no_panic (b : Bytes) (h : b.length ≤ 255) : decodeCaps b ≠ .panic :=
+  Lemmas.decodeCaps_no_panic b h
 
 /-- the reader (framing + per-type decoding) never panics on any stream -/
-theorem reader_no_panic (s : Bytes) : (readAll s).2 ≠ .panic := by
-  sorry
+theorem reader_no_panic (s : Bytes) : (readAll s).2 ≠ .panic :=
+  Lemmas.reader_no_panic s
 
 end CoreBGP.Props.C05
